@@ -172,6 +172,11 @@ func (c *Conn) closeHandshake(code StatusCode, reason string) error {
 }
 
 func (c *Conn) writeClose(code StatusCode, reason string) error {
+	return c.writeCloseCtx(context.Background(), code, reason)
+}
+
+// writeCloseCtx writes a close frame. The write is bounded by ctx and by 5 seconds.
+func (c *Conn) writeCloseCtx(ctx context.Context, code StatusCode, reason string) error {
 	ce := CloseError{
 		Code:   code,
 		Reason: reason,
@@ -186,7 +191,7 @@ func (c *Conn) writeClose(code StatusCode, reason string) error {
 		}
 	}
 
-	ctx, cancel := context.WithTimeout(context.Background(), time.Second*5)
+	ctx, cancel := context.WithTimeout(ctx, time.Second*5)
 	defer cancel()
 
 	err = c.writeControl(ctx, opClose, p)
